@@ -71,8 +71,34 @@ func c16MethodPaths() []Path {
 	return bothModes(es)
 }
 
+// c16ArgSpelling: two spellings of the same integer arguments give the same result (or, where the
+// parser rejects a spelling, nothing to compare).
+func c16ArgSpelling(c Case) *Failure {
+	p1, e1, pan1 := parseCached(c.Path)
+	p2, e2, pan2 := parseCached(c.Path2)
+	if e1 != nil || pan1 != "" {
+		return &Failure{Sig: "C16/harness/base-spelling-does-not-parse", Expected: "parses", Observed: c.Path}
+	}
+	if e2 != nil || pan2 != "" {
+		return nil
+	}
+	vars := map[string]any{}
+	for k, v := range c.Vars {
+		vars[k] = decodeTagged(v, "float64")
+	}
+	for _, silent := range []bool{false, true} {
+		o1, o2 := implQuery(p1, nil, runCfg{vars: vars, silent: silent}), implQuery(p2, nil, runCfg{vars: vars, silent: silent})
+		if o1.Class != o2.Class || (o1.Class == "ok" && canonList(o1.Items) != canonList(o2.Items)) {
+			return &Failure{Sig: "C16/argument-spelling-changes-the-result", Expected: c.Path + " => " + o1.String(), Observed: c.Path2 + " => " + o2.String()}
+		}
+	}
+	return nil
+}
+
 func checkC16(c Case) *Failure {
 	switch c.Rule {
+	case "argument-spelling":
+		return c16ArgSpelling(c)
 	case "string-roundtrip":
 		return c16StringRoundTrip(c)
 	case "keyvalue":
@@ -221,6 +247,37 @@ func runC16(r *Run) {
 	docs := makeDocs([]any{nil})
 	refSweep(r, "methods-vs-reference", paths, docs, cfgs)
 
+	// method arguments in every integer spelling denote the same call: relation between two real executions
+	spell := func(v int64) []string {
+		neg, a := "", v
+		if v < 0 {
+			neg, a = "-", -v
+		}
+		out := []string{neg + "0x" + strconv.FormatInt(a, 16), neg + "0X" + strings.ToUpper(strconv.FormatInt(a, 16)), neg + "0o" + strconv.FormatInt(a, 8), neg + "0b" + strconv.FormatInt(a, 2), neg + "0" + strconv.FormatInt(a, 8)}
+		if a >= 10 {
+			d := strconv.FormatInt(a, 10)
+			out = append(out, neg+d[:1]+"_"+d[1:])
+		}
+		if a < 8 {
+			out = out[:4] // a leading zero before a single octal digit is the digit itself; keep the prefixed forms
+		}
+		return out
+	}
+	for _, v := range []string{"f:1234.5678", "f:-0.05", "n:99.995", "s:12.345", "f:1e+15"} {
+		for _, ps := range [][2]int64{{6, 2}, {10, 0}, {15, 3}, {3, -1}, {12, 10}, {1000, 1000}} {
+			base := fmt.Sprintf("$a.decimal(%d, %d)", ps[0], ps[1])
+			for _, sp := range spell(ps[0]) {
+				for _, ss := range append(spell(ps[1]), fmt.Sprint(ps[1])) {
+					c := Case{Rule: "argument-spelling", Path: base, Path2: "$a.decimal(" + sp + ", " + ss + ")", Vars: map[string]string{"a": v}}
+					r.evals.Add(1)
+					r.traces.Add(2)
+					if f := c16ArgSpelling(c); f != nil {
+						r.Fail(c, f)
+					}
+				}
+			}
+		}
+	}
 	// rounding at a negative scale next to the largest doubles (the rounded value may leave the finite range)
 	var hp []Path
 	for _, pp := range []int64{1, 2, 17, 309, 1000} {
